@@ -3,6 +3,7 @@ pub mod c01;
 pub mod c02;
 pub mod c03;
 pub mod c07;
+pub mod c08;
 pub mod c09;
 pub mod c14;
 pub mod c19;
@@ -19,6 +20,7 @@ pub fn registry(id: &str) -> Option<(RunFn, ReplayFn)> {
         "C02" => Some((c02::run, c02::replay)),
         "C03" => Some((c03::run, c03::replay)),
         "C07" => Some((c07::run, c07::replay)),
+        "C08" => Some((c08::run, c08::replay)),
         "C09" => Some((c09::run, c09::replay)),
         "C14" => Some((c14::run, c14::replay)),
         "C19" => Some((c19::run, c19::replay)),
